@@ -137,7 +137,12 @@ func checkC10(w *World, c *Check) {
 				Goal: Implies(ex.isSet(before), And(Or(called...), Not(ex.sliceIdentical(final.F[k].(*SliceVal), before)))), Pos: "removeFromAudience", Funcs: []string{"removeFromAudience"}, Replay: c10Replay("Activity")})
 		}
 	})
-	for _, shape := range [][]int{{1}, {2}, {1, 1}, {2, 1}, {1, 2}, {3}, {1, 1, 1}, {1, 3}, {2, 2}, {3, 1}, {1, 1, 2}, {1, 2, 1}} {
+	shapes := [][]int{{1}, {2}, {1, 1}, {2, 1}, {1, 2}, {3}, {1, 1, 1}, {1, 3}, {2, 2}, {3, 1}, {1, 1, 2}, {1, 2, 1}}
+	if c.Tier == "thorough" {
+		// deeper: every split of five entries over at most three lists that puts a duplicate candidate after two survivors
+		shapes = append(shapes, []int{4}, []int{2, 3}, []int{3, 2}, []int{1, 4}, []int{1, 1, 3}, []int{2, 1, 2})
+	}
+	for _, shape := range shapes {
 		dedupBounded(w, c, shape)
 	}
 	verifyContract(w, c, cs, "C10", "removeFromCollection", nil, nil, func(ex *Exec) { installItemsEqContract(ex) })
@@ -228,7 +233,7 @@ func init() {
 			}
 			n, ok1 := al.Len.IntVal()
 			off, ok2 := al.Off.IntVal()
-			if !ok1 || !ok2 || n > 12 {
+			if !ok1 || !ok2 || n > 40 {
 				panic(unsupported(fmt.Sprintf("sort.Sort model: slice of symbolic or large length: %d alts, len=%s off=%s kind=%v", len(sl.Alts), al.Len, al.Off, al.O.kind)))
 			}
 			one := &SliceVal{Elem: sl.Elem, Alts: []SliceAlt{{C: TTrue, O: al.O, Off: al.Off, Len: al.Len}}}
@@ -332,7 +337,9 @@ func dedupBounded(w *World, c *Check, shape []int) {
 		eq := func(a, b *Term) *Term { return App("iriEq", SBool, a, b, TFalse) }
 		for k, en := range ents {
 			en.key = Ite(mIsObject(en.e), App("m.GetID", SStr, en.e), mGetLink(en.e))
-			en.counted = And(Not(ex.isNilSpec(opaqueItem(en.e))), Or(mIsObject(en.e), App("m.IsLink", SBool, en.e)))
+			// an entry names an addressee when it is an object or a link with a non-empty id (an id-less embedded object
+			// names nobody: it is neither a recipient nor a duplicate of another id-less object)
+			en.counted = And(Not(ex.isNilSpec(opaqueItem(en.e))), Or(mIsObject(en.e), App("m.IsLink", SBool, en.e)), Gt(SLen(en.key), IntLit(0)))
 			dup := []*Term{}
 			for _, pr := range ents[:k] {
 				dup = append(dup, And(pr.counted, eq(en.key, pr.key)))
